@@ -24,6 +24,7 @@ type Network struct {
 	freeMap        map[int]struct{}
 	minimizeOption MinimizeOption
 	minimumSpeed   float64 // The minimum speed traveled on any link in the network.
+	maximumSpeed   float64 // The maximum speed traveled on any link in the network.
 }
 
 // weighted adapts Network to gonum's graph.Weighted interface. path.AStar
@@ -178,6 +179,9 @@ func (net *Network) AddLink(l geom.LineString, speed float64) {
 	if e.speed < net.minimumSpeed {
 		net.minimumSpeed = e.speed
 	}
+	if e.speed > net.maximumSpeed {
+		net.maximumSpeed = e.speed
+	}
 	fid := from.ID()
 	tid := to.ID()
 	if fid == tid {
@@ -296,11 +300,11 @@ func (net Network) ShortestRoute(from, to geom.Point) (
 func (net *Network) costHeuristic(x, y graph.Node) float64 {
 	distance := op.Distance(x.(*node).Point, y.(*node).Point)
 	switch net.minimizeOption {
-	// If we're optimizing by time, return use the minimum speed to
-	// calculate the time to ensure the heuristic is less than the actual
-	// value
+	// If we're optimizing by time, use the maximum speed to calculate the
+	// time: no route can be faster than the straight line at the highest
+	// speed in the network, so the heuristic never exceeds the actual value.
 	case Time:
-		return distance / net.minimumSpeed
+		return distance / net.maximumSpeed
 	case Distance:
 		// If we're optimizing by distance, just return the distance.
 		return distance
